@@ -122,16 +122,16 @@ type caseRun struct {
 	srv     []*sideRes
 	sids    []uint32
 	// man in the middle
-	fired     bool
-	lenChange bool
-	genuine   bool // the bytes delivered are all genuine boxes at their positions (swap / padding only)
-	*connState       // the first TCP connection of the case (the one that is mutated) / the UDP flow
-	nconn     int
-	sidIdx    map[uint32]int // session id -> script index (from the case header in the first payload)
-	ucases    []string
-	uimpls    []string
-	now       int64
-	panicked  string
+	fired      bool
+	lenChange  bool
+	genuine    bool // the bytes delivered are all genuine boxes at their positions (swap / padding only)
+	*connState      // the first TCP connection of the case (the one that is mutated) / the UDP flow
+	nconn      int
+	sidIdx     map[uint32]int // session id -> script index (from the case header in the first payload)
+	ucases     []string
+	uimpls     []string
+	now        int64
+	panicked   string
 }
 
 type connState struct {
@@ -147,7 +147,7 @@ type connState struct {
 	victim    bool
 }
 
-type box struct{ nonce, ct, pt []byte }
+type box struct{ nonce, ct, pt, key []byte } // key: the AEAD key that sealed it
 
 type donor struct {
 	// raw field bytes of a data segment of another connection / user, by class
@@ -156,14 +156,16 @@ type donor struct {
 }
 
 type env struct {
-	p       *pat
-	rg      *rig.Rig
-	mu      sync.Mutex
-	cases   map[uint32]*caseRun
-	donors  map[string]*donor // "conn", "user"
-	nextID  uint32
-	keysA   [][]byte
-	srvAddr string
+	p           *pat
+	rg          *rig.Rig
+	mu          sync.Mutex
+	cases       map[uint32]*caseRun
+	donors      map[string]*donor // "conn", "user"
+	nextID      uint32
+	keysA       [][]byte
+	srvAddr     string
+	donorMinute int64
+	donorKey    []byte
 }
 
 func keysOf(user, pass string, t time.Time) [][]byte {
@@ -488,6 +490,15 @@ func pick(r [2]int, pos int) int {
 func boxesOf(seg *rc.Segment, data []byte, l layout, nMeta, nPay []byte) []box {
 	m := l.off["meta"]
 	out := []box{{nonce: nMeta, ct: append([]byte(nil), data[m[0]:m[0]+48]...), pt: seg.MetaBytes}}
+	// the key that sealed this segment (one of the three slots around now)
+	var key []byte
+	for _, k := range keysOf(userA, passA, time.Now()) {
+		if _, err := rc.Open(k, nMeta, out[0].ct); err == nil {
+			key = k
+			break
+		}
+	}
+	out[0].key = key
 	if b, ok := l.off["body"]; ok {
 		ct := append([]byte(nil), data[b[0]:b[1]+16]...)
 		if seg.Meta.IsLowEntropy() {
@@ -496,7 +507,7 @@ func boxesOf(seg *rc.Segment, data []byte, l layout, nMeta, nPay []byte) []box {
 				ct = append(dec, data[b[1]:b[1]+16]...)
 			}
 		}
-		out = append(out, box{nonce: nPay, ct: ct, pt: seg.Payload})
+		out = append(out, box{nonce: nPay, ct: ct, pt: seg.Payload, key: key})
 	}
 	return out
 }
@@ -657,6 +668,51 @@ func segLine(meta []byte, payload []byte) string {
 	return fmt.Sprintf("OK %d:%d:%d:%d:%x", m.Proto, m.SessionID, m.Seq, m.PayloadLen, md5.Sum(payload))
 }
 
+// hookState is the receiver's state at the instant a hook receiver is created: its clock (minutes; virtual time does
+// not advance while the calling goroutine runs) and the key of the cipher it is given (BlockCipherFromPassword takes
+// the slot of "now" from a jittered cache: the key is identified by sealing a probe with it, not recomputed).
+type hookState struct {
+	now int64
+	key []byte
+}
+
+func hookNow() hookState {
+	h := hookState{now: time.Now().Unix() / 60}
+	blk, err := cipher.BlockCipherFromPassword(cipher.HashPassword([]byte(passA), []byte(userA)), true)
+	if err != nil {
+		panic(err)
+	}
+	probe := []byte("c04-key-probe")
+	buf := make([]byte, 24+len(probe)+16)
+	if err := blk.Encrypt(buf[:0], probe); err != nil {
+		panic(err)
+	}
+	for _, k := range keysOf(userA, passA, time.Now()) {
+		if _, err := rc.Open(k, buf[:24], buf[24:]); err == nil {
+			h.key = k
+		}
+	}
+	if h.key == nil {
+		R.Count("hook-key-not-in-three-slots")
+	}
+	return h
+}
+
+// tableFor keeps the boxes that the receiver's key sealed (key == nil: all boxes; end-to-end runs, where the real
+// receiver tries every slot).
+func tableFor(bs []box, key []byte, filter bool) []box {
+	if !filter {
+		return bs
+	}
+	var out []box
+	for _, b := range bs {
+		if key != nil && bytes.Equal(b.key, key) {
+			out = append(out, b)
+		}
+	}
+	return out
+}
+
 func tableStr(bs []box) string {
 	var sb strings.Builder
 	fmt.Fprintf(&sb, "%d", len(bs))
@@ -673,7 +729,10 @@ func hx(b []byte) string {
 	return hex.EncodeToString(b)
 }
 
-func udpCase(tag string, now int64, bs []box, d []byte) (string, string) {
+func udpCase(tag string, bs []box, d []byte) (string, string) {
+	h := hookNow()
+	now := h.now
+	bs = tableFor(bs, h.key, true)
 	blk, err := cipher.BlockCipherFromPassword(cipher.HashPassword([]byte(passA), []byte(userA)), true)
 	if err != nil {
 		panic(err)
@@ -754,7 +813,7 @@ func (e *env) udpMitm(cr *caseRun, dir, k int, data []byte) []simnet.Delivery {
 	if don := e.donorFor(mut.kind, dir); don != nil {
 		bs = append(bs, don.boxes...)
 	}
-	c, i := udpCase(tagOf(cr, cr.lenChange), cr.now, bs, out)
+	c, i := udpCase(tagOf(cr, cr.lenChange), bs, out)
 	cr.ucases = append(cr.ucases, c)
 	cr.uimpls = append(cr.uimpls, i)
 	return []simnet.Delivery{{Data: out}}
@@ -812,6 +871,8 @@ func (e *env) donorFor(kind string, dir int) *donorX {
 // a data segment of each (client->server direction; for "sess": a segment of each direction of alice's transfer).
 func (e *env) makeDonors() {
 	nw := e.rg.Net
+	h0 := hookNow()
+	e.donorMinute, e.donorKey = h0.now, h0.key
 	for _, who := range []string{"conn", "user"} {
 		nw.Log.Off = false
 		start := len(nw.Log.Snapshot())
@@ -1056,13 +1117,16 @@ func (e *env) sweepTCP(cr *caseRun, dir int, every int) {
 	if len(stream) == 0 {
 		return
 	}
-	tab := tableStr(cr.boxes[dir])
+	h := hookNow() // the whole sweep runs at one virtual instant
+	tab := tableStr(tableFor(cr.boxes[dir], h.key, true))
 	emit := func(tag string, s []byte) {
-		R.Case(fmt.Sprintf("T tcp/%s/%s/%s %d %s %s", cr.p.name, []string{"c2s", "s2c"}[dir], tag, cr.now, tab, hx(s)), tcpReceive(s))
+		R.Case(fmt.Sprintf("T tcp/%s/%s/%s %d %s %s", cr.p.name, []string{"c2s", "s2c"}[dir], tag, h.now, tab, hx(s)), tcpReceive(s))
 		R.Count("T:" + strings.SplitN(tag, "/", 2)[0])
 	}
 	emit("genuine/0", stream)
-	if !strings.HasPrefix(tcpReceive(stream), fmt.Sprintf("%d ", cr.nseg[dir])) {
+	if h.key == nil || len(tableFor(cr.boxes[dir], h.key, true)) != len(cr.boxes[dir]) {
+		R.Count("sweep-after-key-slot-change") // the hook receiver holds another slot's key: everything must be refused, by both
+	} else if !strings.HasPrefix(tcpReceive(stream), fmt.Sprintf("%d ", cr.nseg[dir])) {
 		R.Fail("selftest-genuine-stream-not-accepted", "the recorded genuine stream is not accepted completely by the hook receiver: "+tcpReceive(stream)[:40], cr.p.name)
 	}
 	ks := []string{"flip", "subst", "insert", "delete", "trunc"}
@@ -1103,7 +1167,7 @@ func (e *env) sweepUDP(cr *caseRun, dir int, every int, maxDg int) {
 		l := layoutOf(&seg, len(d), true)
 		bs := boxesOf(&seg, d, l, seg.Nonce, seg.Nonce)
 		emit := func(tag string, x []byte) {
-			c, i := udpCase(fmt.Sprintf("udp/%s/%s/%s", cr.p.name, []string{"c2s", "s2c"}[dir], tag), cr.now, bs, x)
+			c, i := udpCase(fmt.Sprintf("udp/%s/%s/%s", cr.p.name, []string{"c2s", "s2c"}[dir], tag), bs, x)
 			R.Case(c, i)
 			R.Count("U:" + strings.SplitN(tag, "/", 2)[0])
 		}
@@ -1213,6 +1277,15 @@ func main() {
 					froms := []int{1}
 					if cl == "nonce" && p.transport == "tcp" {
 						froms = []int{0}
+					}
+					if cl == "boundary" && strings.HasPrefix(k, "splice") {
+						// a whole foreign segment / datagram is spliced in: take it from traffic of this minute and this key
+						// slot, so that "a genuine foreign datagram is accepted as what it is" stays covered (the prediction
+						// is exact either way: clock and key of the receiver are read at the hook call)
+						if h := hookNow(); e.donorMinute != h.now || !bytes.Equal(e.donorKey, h.key) {
+							e.donors = map[string]*donor{}
+							e.makeDonors()
+						}
 					}
 					for _, from := range froms {
 						m := &mutation{dir: dir, from: from, class: cl, kind: k, pos: pos}
